@@ -237,6 +237,20 @@ def loop_correspondence(R, cases, tier):
                                 lambda c: c["meta"]["L"], tag="joltcorr2", npert=24)
         R.cov["loop_correspondence_second_look"] = st2
         R.cov["loop_first_look_differences"] = [f"{fn}: {why[:400]}" for (_, fn, why) in mism[:5]]
+        # third look for differences in the EXIT DECISION only (same rule as in c01.loop_correspondence: the relative-progress
+        # test compares at one ulp, an ill-conditioned final simplex amplifies one differently rounded dot product to tens of
+        # ulps): excused only if the model's own exit flips under 1e-14 / 1e-13 perturbations of the trace; all search
+        # directions must be equal and no answer may differ.  The boolean answers themselves are judged by the certificates.
+        from .c01 import _exit_off_by_one
+        exit_only = [k for k, (j, fn, why) in enumerate(mism2) if why.startswith("model stops after")
+                     and "search direction" not in why and "answer" not in why and _exit_off_by_one(why)]
+        if exit_only:
+            sub3 = [sub[mism2[k][0]] for k in exit_only]
+            st3, mism3 = jc.compare(PID, [tc[i] for i in sub3], [out[i] for i in sub3], R.rng,
+                                    lambda c: c["meta"]["L"], tag="joltcorr3", npert=24, mags=(1e-14, 1e-13))
+            R.cov["loop_correspondence_third_look_exit_decisions"] = st3
+            still = {sub3[j] for (j, fn, why) in mism3}
+            mism2 = [m for k, m in enumerate(mism2) if k not in exit_only or sub[m[0]] in still]
         for (j, fn, why) in mism2[:5]:
             c = tc[sub[j]]
             R.corr_broken.append(f"Model/JoltLoop.v vs gjk_intersection_jolt ({fn}): {why[:600]} on c1={json.dumps(c['c1'])} c2={json.dumps(c['c2'])}")
